@@ -39,12 +39,31 @@ def chopper(repo, dtypes=None):
     return bound
 
 
+class SenseNotBySign(Exception):
+    """The rotation sense is decided by a comparison of the frequency that is not its sign."""
+
+
 def clockwise_of(o):
-    """The rotation sense decided on this path: True = clockwise (frequency < 0)."""
+    """The rotation sense decided on this path: True = clockwise (frequency < 0).  The decision is recognised by what it does: a
+    condition on the frequency alone that is true for negative and false for positive frequencies, fast and slow (or the reverse)."""
+    from fractions import Fraction as Fr
     for c, taken, where in o.conditions:
         t = getattr(c, 'term', None)
-        if t is not None and eq_term(t, T.fn_cmp('<', S('frequency'), Rat.const(0))):
+        if t is None:
+            continue
+        names = {T.A(i).name for i in t.atoms() if T.A(i).kind == 'sym'}
+        if 'frequency' not in names or not names <= {'frequency', 'U:frequency'}:
+            continue
+        try:
+            neg = [T.evaluate(t, {'frequency': Fr(v), 'U:frequency': Fr(1)}, {}) != 0 for v in (Fr(-5), Fr(-1, 4), Fr(-1, 1000))]
+            pos = [T.evaluate(t, {'frequency': Fr(v), 'U:frequency': Fr(1)}, {}) != 0 for v in (Fr(5), Fr(1, 4), Fr(1, 1000))]
+        except T.EvalError:
+            continue
+        if all(neg) and not any(pos):
             return taken
+        if all(pos) and not any(neg):
+            return not taken
+        raise SenseNotBySign(f'{T.show(t)} at {where}')
     return None
 
 
@@ -137,6 +156,14 @@ def run(tier: str) -> Run:
     specs = {'angle': P(dim='ANGLE', positive=False)}
     outs = run_kernel(repo, fi, specs, bound=chopper(repo))
     seen = set()
+    try:
+        for o in returns(outs):
+            clockwise_of(o)
+    except SenseNotBySign as ex:
+        r1.fail('rotation sense', loc(repo.func(MOD, 'DiskChopper.is_clockwise')), {'decided_by': str(ex), 'documented': 'clockwise iff frequency < 0 (any magnitude)'}, key='sense')
+        for inst_ in ('clockwise', 'anticlockwise', 'integer operands'):
+            r1.ok(inst_, {'not_decided': 'the two rotation senses cannot be told apart'}, nontrivial=False)
+        return run
     for o in returns(outs):
         cw = clockwise_of(o)
         if cw is None:
